@@ -20,3 +20,29 @@ fn il2p_lfsr_next_total() {
     let mut l = Lfsr::new(kani::any(), kani::any());
     let _ = l.next(kani::any());
 }
+
+/// C15 / C10: bits_to_bytes on two bytes' worth of arbitrary stream bytes: no panic, MSB-first packing for real bits.
+#[kani::proof]
+#[kani::unwind(18)]
+fn il2p_bits_to_bytes_16() {
+    let bits: [u8; 16] = kani::any();
+    let r = bits_to_bytes(&bits);
+    assert!(r.len() == 2);
+    let mut all_bits = true;
+    let mut k = 0;
+    while k < 16 {
+        if bits[k] > 1 { all_bits = false; }
+        k += 1;
+    }
+    if all_bits {
+        let mut want0 = 0u8;
+        let mut want1 = 0u8;
+        let mut i = 0;
+        while i < 8 {
+            want0 |= bits[i] << (7 - i);
+            want1 |= bits[8 + i] << (7 - i);
+            i += 1;
+        }
+        assert!(r[0] == want0 && r[1] == want1);
+    }
+}
